@@ -38,7 +38,7 @@ pub fn member_annotations(m: &Model, ctx: &mut Ctx, rule: &str, item: &str) {
             ".constraints_and_type_name" => Some(Ok(okv(Val::Tuple(vec![Val::List(vec![]), Val::Sym("TYPE".into())])))),
             "Self::needs_unnesting" | "Rasn::needs_unnesting" => Some(Ok(Val::Bool(matches!(a.first(), Some(Val::Ctor(k, _, _)) if ["Sequence", "Set", "Choice", "Enumerated"].contains(&k.as_str()))))),
             ".inner_name" => Some(Ok(Val::Sym("INNER".into()))),
-            ".format_range_annotations" => Some(Ok(okv(Val::Sym("<RANGE>".into())))),
+            ".format_range_annotations" => Some(Ok(okv(Val::Sym(match a.get(1) { Some(Val::Bool(b)) => format!("<RANGE:signed={}>", b), Some(o) => format!("<RANGE:signed=?{}>", o.show()), None => "<RANGE>".into() })))),
             ".format_alphabet_annotations" => Some(Ok(okv(Val::Sym("<ALPHABET>".into())))),
             ".format_tag" => Some(Ok(Val::Sym("<TAG>".into()))),
             ".format_identifier_annotation" => Some(Ok(Val::Sym("<IDENTIFIER>".into()))),
@@ -62,8 +62,12 @@ pub fn member_annotations(m: &Model, ctx: &mut Ctx, rule: &str, item: &str) {
         ("UTF8String", cs("UTF8String")), ("PrintableString", cs("PrintableString")), ("IA5String", cs("IA5String")), ("BMPString", cs("BMPString")), ("GeneralString", cs("GeneralString")),
         ("a type reference", plain("ElsewhereDeclaredType")), ("SEQUENCE OF", plain("SequenceOf")), ("an inline SEQUENCE", plain("Sequence")), ("an inline ENUMERATED", plain("Enumerated")), ("NULL", Val::ctor("Null")),
     ];
-    let want = match item { "extension" => "<EXT>", "tag" => "<TAG>", _ => "<DEFAULT>" };
+    let want = match item { "extension" => "<EXT>", "tag" => "<TAG>", "signed" => "<RANGE:signed=true>", _ => "<DEFAULT>" };
     for (label, ty) in kinds {
+        // the bounds of an INTEGER — written in place or behind a type reference — have no lower end unless one is written
+        if item == "signed" && !["INTEGER", "a type reference"].contains(&label) {
+            continue;
+        }
         ctx.oblige(rule, &format!("{}:{}", item, label), true);
         let mut me = BTreeMap::new();
         me.insert("name".to_string(), Val::Str("field".into()));
@@ -81,7 +85,12 @@ pub fn member_annotations(m: &Model, ctx: &mut Ctx, rule: &str, item: &str) {
         match ev.eval_fn_body(&f.block, &mut env) {
             Ok(Val::Ctor(ok, p, _)) if ok == "Ok" => {
                 let ann = match p.first() { Some(Val::Ctor(_, _, fl)) => fl.get("annotations").map(|v| match v { Val::Sym(s) | Val::Str(s) => s.clone(), o => o.show() }).unwrap_or_default(), _ => String::new() };
-                if !ann.split_whitespace().any(|a| a == want) {
+                if item == "signed" {
+                    if !ann.split_whitespace().any(|a| a == want) {
+                        ctx.violate(rule, &format!("member-bounds-folded-unsigned:{}", label.replace(' ', "-")), &f.file, f.line,
+                            &format!("format_member_or_option, component of type {}: its constraints are folded as `{}` — as unsigned, an absent lower bound becomes 0: `a Plain (MIN..5)` with `Plain ::= INTEGER` is annotated value(\"0..=5\"), which excludes the negative values the constraint permits (a reference may stand for an INTEGER; for a SIZE constraint the flag changes nothing)", label, ann.split_whitespace().find(|a| a.starts_with("<RANGE")).unwrap_or("")));
+                    }
+                } else if !ann.split_whitespace().any(|a| a == want) {
                     ctx.violate(rule, &format!("member-loses-{}", item), &f.file, f.line,
                         &format!("format_member_or_option, component of type {}: the annotations handed to join_annotations are `{}` — the {} is not among them{}", label, ann, match item { "extension" => "extension marking passed in by the caller", "tag" => "component's tag", _ => "DEFAULT annotation passed in by the caller" },
                             if item == "extension" { ": an extension addition of that type is declared as a root component" } else { "" }));
